@@ -198,6 +198,17 @@ pub fn generate(rng: &mut Rng, tier: Tier, emit: &mut dyn FnMut(String)) {
     emit(format!("ka 1/1000/2500 g;{};t1000;G;t100;r1025;r1026;r0", vec!["s"; 1026].join(";")));
     emit(format!("ka 0/1000/2500 g;{};t1000;c5;G;t100;r1025", vec!["s"; 1025].join(";")));
     emit(format!("ka 1/500/1000 g;{};t500;x", vec!["s"; 1030].join(";")));
+    // the silent peer with (almost) the whole stream-id space in flight: the keep-alive request itself cannot get a
+    // stream id (`UnableToAllocStreamId` -> KeepaliveRequestError), or gets the very last one (-> KeepaliveTimeout)
+    for n in [32768usize, 32767, 32769, 10] {
+        emit(format!("kax 100/100 {}", n));
+    }
+    if !quick {
+        emit("kax 1000/300 32768".to_owned());
+        emit("kax 50/400 32768".to_owned());
+        // the same schedule with the model's line (slow in the model: 32768 callers in association lists)
+        emit(format!("ka 1/100/100 {}", vec!["s"; 32768].join(";")));
+    }
     // hints: long before the first tick; while a probe is in flight (stored, consumed afterwards); twice (one permit)
     for c in [
         "ka 1/30000/300 s;s;t500;h",
@@ -520,6 +531,84 @@ fn run_race(cfg: &str, seed: u64, ctx: &mut Ctx) -> String {
     if failures.is_empty() { "race".to_owned() } else { "race-hang".to_owned() }
 }
 
+/// `kax <interval ms>/<timeout ms> <n>`: n requests in flight (up to the whole stream-id space) on a connection with
+/// keep-alive on, against a peer that reads everything and answers nothing. Oracle only (the model's line is the
+/// constant; the same schedule with the model's line is a `ka` case of the thorough tier): the connection is
+/// reported broken within interval + timeout (+ one interval of slack) of virtual time and EVERY caller has an
+/// error — also when all 32768 stream ids are taken, so that the keep-alive request itself cannot get one.
+fn run_kax(cfg: &str, n: usize, ctx: &mut Ctx) -> String {
+    let parts: Vec<&str> = cfg.split('/').collect();
+    let (Some(Ok(interval)), Some(Ok(timeout))) = (parts.first().map(|x| x.parse::<u64>()), parts.get(1).map(|x| x.parse::<u64>())) else {
+        return "bad-case".to_owned();
+    };
+    if parts.len() != 2 || interval == 0 || timeout == 0 || interval > 60_000 || timeout > 60_000 || n > 40_000 {
+        return "bad-case".to_owned();
+    }
+    let rt = runtime();
+    rt.block_on(async {
+        let mut sim = ConnSim::new(true, Some((Duration::from_millis(interval), Duration::from_millis(timeout))));
+        settle().await;
+        for k in 0..n {
+            sim.submit(ctx);
+            // tokio's cooperative budget (128 channel operations per task poll): yield often enough
+            if k % 32 == 31 {
+                tokio::task::yield_now().await;
+            }
+            if k % 128 == 127 {
+                sim.settle(ctx).await; // the writer writes, the silent peer reads
+            }
+        }
+        for _ in 0..2 {
+            sim.settle(ctx).await;
+            for k in 0..sim.futures.len() {
+                sim.poll_req(k, ctx); // a submission that was cut short by the budget completes its push
+                if k % 32 == 31 {
+                    tokio::task::yield_now().await;
+                }
+            }
+        }
+        sim.settle(ctx).await;
+        let expect_frames = n.min(32768);
+        if sim.unanswered.len() != expect_frames {
+            ctx.fail(format!("harness: only {} of {} requests reached the silent peer", sim.unanswered.len(), expect_frames));
+        }
+        let step = (interval.min(timeout) / 2).max(1);
+        let horizon = 2 * interval + timeout;
+        let mut t = 0;
+        while t < horizon && sim.broken.is_none() {
+            tokio::time::advance(Duration::from_millis(step)).await;
+            t += step;
+            sim.settle(ctx).await;
+        }
+        if sim.broken.is_none() {
+            ctx.fail(format!(
+                "{} requests in flight, the peer is silent: the connection was not broken within {} ms (keep-alive interval {} + timeout {} + slack)",
+                n, horizon, interval, timeout
+            ));
+        }
+        for round in 0..2 {
+            for k in 0..sim.futures.len() {
+                sim.poll_req(k, ctx);
+                if k % 64 == 63 {
+                    tokio::task::yield_now().await;
+                }
+            }
+            if round == 0 {
+                sim.settle(ctx).await;
+            }
+        }
+        let hanging = sim.outcomes.iter().filter(|o| o.is_none()).count();
+        let ok = sim.outcomes.iter().filter(|o| o.as_deref().is_some_and(|s| s.starts_with("ok:"))).count();
+        if hanging != 0 || ok != 0 {
+            ctx.fail(format!(
+                "{} of {} callers still wait ({} got a response nobody sent) after the silent peer should have been detected",
+                hanging, n, ok
+            ));
+        }
+        "kax".to_owned()
+    })
+}
+
 pub fn run(case: &str, ctx: &mut Ctx) -> String {
     let w: Vec<&str> = case.split_whitespace().collect();
     fn ops<'a>(s: Option<&&'a str>) -> Vec<&'a str> {
@@ -533,6 +622,10 @@ pub fn run(case: &str, ctx: &mut Ctx) -> String {
         Some("conn") if (w.len() == 2 || w.len() == 3) && (w[1] == "0" || w[1] == "1") => {
             run_conn(w[1] == "1", None, &ops(w.get(2)), ctx)
         }
+        Some("kax") if w.len() == 3 => match w[2].parse::<usize>() {
+            Ok(n) => run_kax(w[1], n, ctx),
+            Err(_) => "bad-case".to_owned(),
+        },
         Some("pool") if w.len() == 3 => crate::c10_pool::run(w[1], w[2], ctx),
         Some("race") if w.len() == 3 => match w[2].parse::<u64>() {
             Ok(seed) => run_race(w[1], seed, ctx),
